@@ -1,4 +1,5 @@
 import Proofs.Pos
+import Proofs.RangeScan
 /-!
 # C14 — tokens tile the source and every reported position is faithful (position arithmetic)
 
@@ -32,5 +33,51 @@ theorem emit_last_byte (start : P) (segs : List Seg) (ty : Nat) (cls : List Cl) 
 /-- non-vacuity: a CRLF, a multi-byte cluster and a gap -/
 example : emitAll ⟨10, 3, 5⟩ 0 [.tok 73 [⟨1, false⟩, ⟨3, false⟩], .gap 2, .tok 10 [⟨2, true⟩], .tok 73 [⟨1, false⟩]] =
     [⟨73, ⟨10, 3, 5⟩, ⟨14, 3, 7⟩⟩, ⟨10, ⟨16, 3, 9⟩, ⟨18, 4, 1⟩⟩, ⟨73, ⟨18, 4, 1⟩, ⟨19, 4, 2⟩⟩] := by decide
+
+/-! ## `hcl.RangeScanner` (pos_scanner.go)
+
+`scanAll` is `RangeScanner.Scan` called until the buffer is exhausted, over the windows cut by any split
+function; `refScan` recounts every range from the start of the buffer.  The `RSCAN` correspondence runs
+both on the real scanner's windows (five split functions). -/
+
+/-- Every range reported by the scanner — start and end, byte, line and column — equals the position
+    obtained by counting newlines and grapheme clusters from the start position: for every start position,
+    every split function (any windows, any token lengths) and every mixture of clusters. -/
+theorem rscan_positions (start : P) (wins : List Win) :
+    scanAll start wins = refScan start [] wins :=
+  Proofs.scanAll_eq_ref start wins
+
+/-- Ranges come in buffer order without overlap, and each is well-formed. -/
+theorem rscan_ordered (start : P) (wins : List Win) :
+    (scanAll start wins).Pairwise (fun a b => a.stop.byte ≤ b.start.byte) ∧
+    ∀ r ∈ scanAll start wins, r.start.byte ≤ r.stop.byte :=
+  ⟨(Proofs.scanAll_ordered_gen wins start).1, (Proofs.scanAll_ordered_gen wins start).2.1⟩
+
+/-- A token that ends on a cluster boundary of its window is covered exactly: the range starts at the
+    running position and ends `tokLen` bytes later. -/
+theorem rscan_covers_token (pos : P) (w : Win) (h : w.aligned) :
+    (scanWin pos w).1.start = pos ∧ (scanWin pos w).1.stop.byte = pos.byte + w.tokLen :=
+  Proofs.scanWin_covers pos w h
+
+/-- The next range starts at the position — byte, line *and* column — reached after the whole previous
+    window, wherever the previous token ended inside it. -/
+theorem rscan_contiguous (pos : P) (w : Win) (ws : List Win) :
+    scanAll pos (w :: ws) = (scanWin pos w).1 :: scanAll (walk pos w.cls) ws :=
+  Proofs.scanAll_contiguous pos w ws
+
+/-- The full reading "the range covers the returned token" is false for split functions that skip leading
+    bytes (`bufio.ScanWords`): the scanner takes the token to be the head of the window.  `"  foo "`:
+    the token `foo` lies at offset 2, the range reported is bytes [0,3) = `"  f"` (recorded finding
+    C14-rangescanner; replayed on the real scanner by the oracle). -/
+theorem rscan_skipped_prefix_witness :
+    let w : Win := { cls := List.replicate 6 ⟨1, false⟩, tokLen := 3, tokOfs := 2 }
+    (scanWin ⟨0, 1, 1⟩ w).1.start.byte ≠ 0 + w.tokOfs ∧ (scanWin ⟨0, 1, 1⟩ w).1 = ⟨0, ⟨0, 1, 1⟩, ⟨3, 1, 4⟩⟩ := by
+  decide
+
+/-- non-vacuity: lines kept with their terminator (the end of the first range is line 2, column 1), a
+    two-byte cluster, a token shorter than its window -/
+example : scanAll ⟨0, 1, 1⟩ [⟨[⟨1, false⟩, ⟨2, false⟩, ⟨1, true⟩], 4, 0⟩, ⟨[⟨1, false⟩, ⟨2, true⟩], 1, 0⟩] =
+    [⟨0, ⟨0, 1, 1⟩, ⟨4, 2, 1⟩⟩, ⟨0, ⟨4, 2, 1⟩, ⟨5, 2, 2⟩⟩] := by decide
+example : (⟨[⟨1, false⟩, ⟨2, false⟩, ⟨1, true⟩], 4, 0⟩ : Win).aligned := by decide
 
 end HclModel.Pos
